@@ -91,6 +91,9 @@ PROPS = {
         'bounded': ['httparse conformance (shared with C05)'],
     },
     'C12': {
+        # "state-advancing calls made afterwards do not panic either": the proceed() of the server-facing states rest on the
+        # C09 readiness / successor clauses of the functions on C12's chain (Await100 / RecvResponse / RecvBody proceed + can_proceed)
+        'depends_on': ['C09'],
         'modules': ['util', 'chunk', 'body', 'parser', 'client::call', 'client::flow'],
         'explanation': 'panic-freedom (index, slice, overflow, unwrap/expect, unreachable!, assert!, ArrayVec::push capacity) of every server-facing function with NO precondition on the byte arguments; counts within bounds; produced bytes are a subsequence in order of consumed ones; errors leave the state unchanged (and the chunk decoder well-formed); termination by decreases clauses.',
         'assumptions': [VERUS, USIZE, HTTP, HTTPARSE, STR, PRE],
